@@ -442,6 +442,37 @@ mod tests {
         assert_eq!(&m[..8], &[0x5b, 0xdc, 0xc1, 0x46, 0xbf, 0x60, 0x75, 0x4e]);
     }
     #[test]
+    fn rfc5769_long_term_request() {
+        // RFC 5769 §2.4: long-term credentials; password after SASLprep is "TheMatrIX"
+        let m: Vec<u8> = vec![
+            0x00, 0x01, 0x00, 0x60, 0x21, 0x12, 0xa4, 0x42, 0x78, 0xad, 0x34, 0x33, 0xc6, 0xad, 0x72, 0xc0, 0x29, 0xda, 0x41, 0x2e, 0x00, 0x06, 0x00, 0x12, 0xe3, 0x83, 0x9e, 0xe3, 0x83, 0x88,
+            0xe3, 0x83, 0xaa, 0xe3, 0x83, 0x83, 0xe3, 0x82, 0xaf, 0xe3, 0x82, 0xb9, 0x00, 0x00, 0x00, 0x15, 0x00, 0x1c, 0x66, 0x2f, 0x2f, 0x34, 0x39, 0x39, 0x6b, 0x39, 0x35, 0x34, 0x64, 0x36,
+            0x4f, 0x4c, 0x33, 0x34, 0x6f, 0x4c, 0x39, 0x46, 0x53, 0x54, 0x76, 0x79, 0x36, 0x34, 0x73, 0x41, 0x00, 0x14, 0x00, 0x0b, 0x65, 0x78, 0x61, 0x6d, 0x70, 0x6c, 0x65, 0x2e, 0x6f, 0x72,
+            0x67, 0x00, 0x00, 0x08, 0x00, 0x14, 0xf6, 0x70, 0x24, 0x65, 0x6d, 0xd6, 0x4a, 0x3e, 0x02, 0xb8, 0xe0, 0x71, 0x2e, 0x85, 0xc9, 0xa2, 0x8c, 0xa8, 0x96, 0x66,
+        ];
+        let Verdict::Accept(v) = decode(&m) else { panic!("{:?}", decode(&m)) };
+        let c = RefCreds::Long { user: "\u{30DE}\u{30C8}\u{30EA}\u{30C3}\u{30AF}\u{30B9}".into(), realm: "example.org".into(), password: "TheMatrIX".into() };
+        assert_eq!(integrity_status(&m, &v, &c), vec![(3, MI, true)]);
+        let wrong = RefCreds::Long { user: "\u{30DE}\u{30C8}\u{30EA}\u{30C3}\u{30AF}\u{30B9}".into(), realm: "example.org".into(), password: "TheMatrIx".into() };
+        assert_eq!(integrity_status(&m, &v, &wrong), vec![(3, MI, false)]);
+        // and the encoder reproduces the vector
+        let mut r = RefMsg::new(0, 1, 0x78ad_3433_c6ad_72c0_29da_412e);
+        for a in &v.all[..3] {
+            r.items.push(RefItem::Attr { ty: a.ty, value: a.value(&m).to_vec(), pad: 0 });
+        }
+        r.items.push(RefItem::Mac1 { creds: c, flip: None });
+        assert_eq!(r.encode(), m);
+    }
+    #[test]
+    fn exposure_rule() {
+        let a = |ty| RefAttr { ty, off: 0, len: 0 };
+        assert_eq!(exposure(&[a(1), a(MI), a(MI256), a(FP)]).0, vec![0, 1, 2, 3]);
+        assert_eq!(exposure(&[a(1), a(MI256), a(MI), a(FP)]).0, vec![0, 1, 3]);
+        assert_eq!(exposure(&[a(1), a(MI256), a(MI)]).0, vec![0, 1]);
+        assert_eq!(exposure(&[a(1), a(FP)]).0, vec![0, 1]);
+        assert_eq!(exposure(&[a(MI), a(FP)]).0, vec![0, 1]);
+    }
+    #[test]
     fn rfc5769_request() {
         // RFC 5769 §2.1 sample request (short-term, password below)
         let mut m = vec![
